@@ -253,8 +253,15 @@ def u8(s):
 def std_headers(g, method, callid=None, ftag="ft1", ttag=None, furi="sip:alice@ua1.test", turi="sip:bob@dest.test", cseq=None, spell_mode=None):
     sm = spell_mode if spell_mode is not None else g.sp_pick([0, 0, 0, 1, 2, 3, 4])
     callid = callid or (g.word(ALNUM, 6, 14) + "@" + g.pick(["ua1.test", "10.1.1.1"]))
-    f = "%s<%s>;tag=%s" % (g.pick(["", "Alice ", '"A. B." ']), furi, ftag)
-    t = "<%s>" % turi + (";tag=%s" % ttag if ttag else "")
+    # legal layouts of From/To the proxy must hand on as they are: LWS around ';' and '=', quoted display names
+    # holding separators, extra parameters
+    semi = g.pick([";"] * 8 + [" ;", "; ", " ; ", "\t;"])
+    eq = g.pick(["="] * 10 + [" = ", "= "])
+    disp = g.pick(["", "", "Alice ", '"A. B." ', '"A. B."', '"a;b" ', '"x=y; z" ', '"q \\"r\\"" ', "Bob  ", "a b c "])
+    extra = g.pick([""] * 6 + [";x=1", ";y", " ;z = \"q\""])
+    f = "%s<%s>%s%stag%s%s" % (disp, furi, extra, semi, eq, ftag)
+    t = "<%s>" % turi + ("%stag%s%s" % (semi, eq, ttag) if ttag else "")
+    g.count("fromto_plain" if (semi, eq) == (";", "=") else "fromto_lws")
     hs = [(spell(g, "From", sm), f), (spell(g, "To", sm), t), (spell(g, "Call-ID", sm), callid),
           (spell(g, "CSeq", sm), cseq_text(g, cseq or g.rint(1, 9999), method))]
     return hs
